@@ -251,6 +251,9 @@ static void run() {
     auto &a = vp::args();
     vp::CaseScope scope([] { return ser(g_cur); });
     size_t maxlen = a.thorough() ? 10 : 8;
+#ifdef VP_LIGHT
+    maxlen = a.thorough() ? 8 : 6;   // additional build configurations: two symbols less
+#endif
     vp::stats().rule = vp::fmt("enum: all strings of length <= %zu over {END, ESC, ESC_END, ESC_ESC, 'A'} as payloads (round trip, structure, bound, concatenation), as raw decoder input "
                                "(per-call reference at frame boundaries), as garbage prefixes before END + 3 frames (3 payload triples) and with source/sink error injection at every position "
                                "(lengths <= 5); classic and start-of-frame mode; octet- and chunk-style endpoints, chunk sinks with short writes for the encoder; a control octet behind every run length 0..600 of ordinary octets; every 1- and 2-octet payload and raw input over all 256 octet values, ESC followed by every octet; plus random full-alphabet payloads up to 1 KiB", maxlen);
